@@ -43,6 +43,18 @@ func (s *session) close() {
 // its CONNECT with the given CONNACK bytes (nil: standard code 0).
 func connect(connack []byte) (*session, error) { return connectOpt(connack, false) }
 
+// connectBuf is connect with a BufferSize for the Client (0: 16 KiB).
+func connectBuf(connack []byte, bufSize int) (*session, error) {
+	if bufSize == 0 {
+		bufSize = 16384
+	}
+	clientBufSize = int64(bufSize)
+	defer func() { clientBufSize = 16384 }()
+	return connectOpt(connack, false)
+}
+
+var clientBufSize int64 = 16384
+
 func connectOpt(connack []byte, smallBuffers bool) (*session, error) {
 	fs, err := wire.NewFakeServer()
 	if err != nil {
@@ -50,7 +62,7 @@ func connectOpt(connack []byte, smallBuffers bool) (*session, error) {
 	}
 	fs.SmallBuffers = smallBuffers
 	s := &session{fs: fs, id: fmt.Sprintf("cl%d-%d", time.Now().UnixNano()%100000, clientSeq.Add(1))}
-	s.cl = &service.Client{BufferSize: 16384, ConnectTimeout: 2}
+	s.cl = &service.Client{BufferSize: clientBufSize, ConnectTimeout: 2}
 	cm := message.NewConnectMessage()
 	cm.SetVersion(4)
 	cm.SetCleanSession(true)
